@@ -1,17 +1,17 @@
 package props
 
 import (
-	"math"
 	"bytes"
 	"encoding/json"
 	"fmt"
+	"math"
 	"math/rand"
 	"sort"
 	"strings"
 
 	"github.com/tobgu/qframe"
-	"github.com/tobgu/qframe/config/groupby"
 	"github.com/tobgu/qframe/config/csv"
+	"github.com/tobgu/qframe/config/groupby"
 	"github.com/tobgu/qframe/config/newqf"
 
 	"qverif/fw"
